@@ -14,6 +14,14 @@ open Kit Kit.Cron.Spec
 
 /-! ## 1. getBits -/
 
+/-- The operands of `getRange` are read by the helpers the model assumes: both bounds may be names
+(`parseIntOrName`), the step is digits only (`mustParseInt`). Regenerated from the source on every
+run; the model's `getRangeG` parses the step with `mustParseInt`. -/
+theorem getRange_operand_parsers :
+    Gen.getRangeOperandParsers =
+      [("parseIntOrName", "lowAndHigh[0]"), ("parseIntOrName", "lowAndHigh[1]"),
+       ("mustParseInt", "rangeAndStep[1]")] := by decide
+
 /-- `getBits(min, max, step)` sets exactly the bits `min, min+step, … ≤ max` — for the shift form
 (`step = 1`) and the loop form alike; in particular nothing at or above bit `max+1` (no collision
 with the star bit when `max ≤ 62`). -/
